@@ -152,10 +152,14 @@ Definition spec_parse_bigint (s : str) : sres :=
   | Some t => sopt VBig (spec_numeral true i128_min i128_max 16 t)
   | None => sopt VBig (spec_numeral true i128_min i128_max 10 s)
   end.
-(* parse_*_radix: the caller states the radix (2..36, anything else: failure); an 0x prefix is ignored *)
+(* parse_*_radix: the caller states the radix (2..36, anything else: failure) and the text is read in THAT radix:
+   nil when it is not a numeral of the radix.  A 0x prefix announces hexadecimal digits, so it is skipped for
+   radix 16 (as parse_int does) and only there: in radix 34 and up `0` and `x` are digits like any other
+   ("0xz" in radix 36 is 1223), below that a text with an `x` in it is not a numeral ("0x10" in radix 10: nil) *)
 Definition spec_parse_radix (mk : Z -> val) (lo hi : Z) (s : str) (radix : Z) : sres :=
   if (2 <=? radix) && (radix <=? 36) then
-    sopt mk (spec_numeral true lo hi (Z.to_N radix) (match strip_0x s with Some t => t | None => s end))
+    sopt mk (spec_numeral true lo hi (Z.to_N radix)
+               (match strip_0x s with Some t => if radix =? 16 then t else s | None => s end))
   else SFail.
 Definition spec_parse_int_radix := spec_parse_radix VInt i32_min i32_max.
 Definition spec_parse_bigint_radix := spec_parse_radix VBig i128_min i128_max.
